@@ -50,11 +50,12 @@ def bin (f : Int → Int → Int) (xs : Inputs) : R (List Tensor) := do
   let r ← binop f a b
   pure [r]
 
-/-- Binary operator undefined when `bad x y` holds for some broadcast pair. -/
-def binGuard (bad : Int → Int → Bool) (f : Int → Int → Int) (xs : Inputs) : R (List Tensor) := do
+/-- Binary operator undefined when `bad y` holds for some element of the second operand (division by
+zero, negative integer exponent) — also when broadcasting against an empty operand means the element
+is never used (implementations may validate the whole operand). -/
+def binGuard (bad : Int → Bool) (f : Int → Int → Int) (xs : Inputs) : R (List Tensor) := do
   let a ← inp xs 0; let b ← inp xs 1
-  let chk ← binop (fun x y => b2i (bad x y)) a b
-  if chk.data.any (· != 0) then ambig
+  if b.data.any bad then ambig
   else do
     let r ← binop f a b
     pure [r]
@@ -77,11 +78,11 @@ def runOp (op : String) (a : Attrs) (xs : Inputs) : R (List Tensor) :=
   | "Add" => bin (· + ·) xs
   | "Sub" => bin (· - ·) xs
   | "Mul" => bin (· * ·) xs
-  | "Div" => binGuard (fun _ y => y == 0) Int.tdiv xs
+  | "Div" => binGuard (fun y => y == 0) Int.tdiv xs
   | "Mod" =>
-    if a.flag "fmod" false then binGuard (fun _ y => y == 0) Int.tmod xs
-    else binGuard (fun _ y => y == 0) Int.fmod xs
-  | "Pow" => binGuard (fun _ y => y < 0) powI xs
+    if a.flag "fmod" false then binGuard (fun y => y == 0) Int.tmod xs
+    else binGuard (fun y => y == 0) Int.fmod xs
+  | "Pow" => binGuard (fun y => y < 0) powI xs
   | "Equal" => bin (fun x y => b2i (x == y)) xs
   | "Less" => bin (fun x y => b2i (x < y)) xs
   | "LessOrEqual" => bin (fun x y => b2i (x ≤ y)) xs
